@@ -1336,6 +1336,53 @@ pub(crate) fn h_include_edge_cases() {
     vrt_cover(true, "include_edge_cases_end");
 }
 
+/// an /include inside an IF_DATA block (with and without an A2ML definition for it): the content is loaded as if it
+/// stood there, the directive is written back, merge_includes() makes the output self-contained
+pub(crate) fn h_include_in_ifdata() {
+    let with_a2ml = vrt_choice(2) == 1;
+    let quoted = vrt_choice(2) == 1;
+    let split = vrt_choice(3);            // which part of the IF_DATA content comes from the include file
+    let head = "ASAP2_VERSION 1 71\n/begin PROJECT p \"\"\n/begin MODULE m \"\"\n";
+    let aml = "/begin A2ML\nblock \"IF_DATA\" taggedunion if_data { \"XCP\" taggedstruct { \"VER\" uint; block \"DAQ\" struct { uint; }; (\"EV\" uint)*; }; };\n/end A2ML\n";
+    let parts = ["VER 1\n", "/begin DAQ 2\n/end DAQ\n", "EV 3\nEV 4\n"];
+    let directive = if quoted { "/include \"part.aml\"\n" } else { "/include part.aml\n" };
+    let mut main = String::from(head);
+    let mut flat = String::from(head);
+    if with_a2ml { main.push_str(aml); flat.push_str(aml); }
+    main.push_str("/begin IF_DATA XCP\n");
+    flat.push_str("/begin IF_DATA XCP\n");
+    for i in 0..3u32 {
+        flat.push_str(parts[i as usize]);
+        if i == split { main.push_str(directive); } else { main.push_str(parts[i as usize]); }
+    }
+    main.push_str("/end IF_DATA\n/end MODULE\n/end PROJECT\n");
+    flat.push_str("/end IF_DATA\n/end MODULE\n/end PROJECT\n");
+    vrt_fs_write("part.aml", parts[split as usize].as_bytes());
+    let path = vrt_fs_write("main.a2l", main.as_bytes());
+    let (flat_file, _) = load_from_string(&flat, None, true).unwrap();
+    match load(&path, None, true) {
+        Ok((mut file, _)) => {
+            vrt_check(file == flat_file, "C16 an /include inside IF_DATA yields the same model as the flattened text");
+            vrt_check(file.project.module[0].if_data[0].ifdata_valid == with_a2ml, "C16 (harness) the IF_DATA is interpreted exactly when the A2ML definition is present");
+            let out = file.write_to_string();
+            let path2 = vrt_fs_write("main2.a2l", out.as_bytes());
+            match load(&path2, None, true) {
+                Ok((file2, _)) => vrt_check(file2 == flat_file, "C16 the written file (include inside IF_DATA) loads to an equal model from the same directory"),
+                Err(_) => vrt_check(false, "C16 the written file (include inside IF_DATA) loads again"),
+            }
+            file.merge_includes();
+            let out3 = file.write_to_string();
+            vrt_check(!out3.contains("/include"), "C16 merge_includes makes the output self-contained, also inside IF_DATA");
+            match load_from_string(&out3, None, true) {
+                Ok((file3, _)) => vrt_check(file3 == flat_file, "C16 the self-contained output (include inside IF_DATA) loads to an equal model"),
+                Err(_) => vrt_check(false, "C16 the self-contained output (include inside IF_DATA) loads"),
+            }
+        }
+        Err(_) => vrt_check(false, "C16 a file with an /include inside IF_DATA loads"),
+    }
+    vrt_cover(true, "include_in_ifdata_end");
+}
+
 /// a missing include file is an error naming the directive, not a panic or a partial result
 pub(crate) fn h_include_missing() {
     let quoted = vrt_choice(2) == 1;
@@ -1814,7 +1861,8 @@ pub(crate) fn h_comment_layout_lineends() {
 fn fragment_soup(n: usize) {
     let mut t = String::new();
     for _ in 0..n {
-        match vrt_choice(12) {
+        match vrt_choice(13) {
+            12 => t.push_str("/include "),
             0 => t.push_str("/begin MEASUREMENT ms \"\" UBYTE NO_COMPU_METHOD 0 0 0 255 /end MEASUREMENT "),
             1 => t.push_str("/begin "),
             2 => t.push_str("/end "),
@@ -1868,7 +1916,8 @@ fn ifdata_soup_text(lex: &[u32], closed: bool) -> String {
             6 => t.push_str("// c\n"),
             7 => t.push_str("/begin A2ML\"/end A2ML "),
             8 => t.push_str("/begin A2ML x y /end A2ML "),
-            _ => t.push_str("\"\" "),
+            9 => t.push_str("\"\" "),
+            _ => t.push_str("/include "),       // a directive without a name: in front of another lexeme, or the end of the input
         }
     }
     if closed {
@@ -1879,7 +1928,7 @@ fn ifdata_soup_text(lex: &[u32], closed: bool) -> String {
 
 fn ifdata_soup(n: usize) {
     let mut lex = Vec::new();
-    for _ in 0..n { lex.push(vrt_choice(10)); }
+    for _ in 0..n { lex.push(vrt_choice(11)); }
     let closed = vrt_choice(2) == 0;
     let strict = vrt_choice(2) == 1;
     let t = ifdata_soup_text(&lex, closed);
